@@ -13,6 +13,7 @@ import (
 )
 
 type vpCase struct {
+	Label   string            `json:"label"`
 	Harness string            `json:"harness"`
 	Tier    int               `json:"tier"`
 	Inputs  map[string]uint64 `json:"inputs"`
@@ -25,7 +26,7 @@ type vpResult struct {
 }
 
 func vpRunCase(c vpCase) (res vpResult) {
-	vpIn = &vpReplayFile{Harness: c.Harness, Tier: c.Tier, Inputs: c.Inputs}
+	vpIn = &vpReplayFile{Label: c.Label, Harness: c.Harness, Tier: c.Tier, Inputs: c.Inputs}
 	if vpIn.Inputs == nil {
 		vpIn.Inputs = map[string]uint64{}
 	}
